@@ -231,7 +231,8 @@ class Param:
     kind: ParamKind
 
     def _validate(self) -> None:
-        if not self.name.isidentifier():
+        # keyword-only parameter can be passed via unpacking of a dict, so its name can be any string
+        if self.kind != ParamKind.KW_ONLY and not self.name.isidentifier():
             raise ValueError(f"Parameter name must be python identifier, now it is a {self.name!r}")
         if not is_valid_field_id(self.field_id):
             raise ValueError(f"Field id must be python identifier, now it is a {self.field_id!r}")
